@@ -60,6 +60,7 @@ PROPS = {
             "parts": [{"engine": "mp", "test": "TestVF_C13_Proc", "quick": (4, 750), "thorough": (16, 20000)},
                       {"engine": "e2e", "test": "TestVF_C13_Parser", "quick": (4, 2500), "thorough": (16, 50000)},
                       {"engine": "e2e", "test": "TestVF_C13_Socket", "quick": (4, 25), "thorough": (16, 400), "shrinktime": "10s"},
+                      {"engine": "e2e", "test": "TestVF_C13_DBus", "quick": (2, 10), "thorough": (8, 100), "shrinktime": "10s"},
                       {"engine": "e2e", "test": "FuzzVF_C13_Parser", "kind": "fuzz", "tiers": ["thorough"], "thorough_secs": 90}]},
     "C14": {"level": "exploration", "assumptions": BASE_ASSUME + ["camera descriptions are encoded with the same yaml.v1 Marshal call as cmd/leptond's sendCameraSpecs (which itself needs camera hardware); strings are single-line valid UTF-8"],
             "parts": [{"engine": "hdr", "test": "TestVF_C14_Header", "quick": (4, 2500), "thorough": (16, 50000)},
@@ -76,7 +77,8 @@ PROPS = {
             "parts": [{"engine": "mp", "test": "TestVF_C12", "quick": (4, 1000), "thorough": (16, 30000)},
                       {"engine": "mp", "test": "TestVF_C12_SingleFault", "quick": (4, 60), "thorough": (16, 1500), "shrinktime": "5s"}]},
     "C16": {"level": "exploration", "assumptions": BASE_ASSUME + ["the harness does not own the Go scheduler: interleavings are those produced under generated perturbation (GOMAXPROCS, spins, yields, pauses); the race detector reports races on executions that occur", "the D-Bus transport itself is not run: the service methods are called directly"],
-            "parts": [{"engine": "e2e", "race": True, "test": "TestVF_C16", "quick": (4, 40), "thorough": (16, 500), "shrinktime": "15s", "quick_timeout": 600}]},
+            "parts": [{"engine": "e2e", "race": True, "test": "TestVF_C16", "quick": (4, 40), "thorough": (16, 500), "shrinktime": "15s", "quick_timeout": 600},
+                      {"engine": "e2e", "race": True, "test": "TestVF_C16_DBus", "quick": (2, 15), "thorough": (8, 150), "shrinktime": "15s", "quick_timeout": 600}]},
     "C17": {"level": "exploration", "assumptions": MP_ASSUME,
             "parts": [{"engine": "mp", "test": "TestVF_C17", "quick": (4, 750), "thorough": (16, 25000)},
                       {"engine": "e2e", "test": "TestVF_C17_E2E", "quick": (4, 15), "thorough": (16, 250), "shrinktime": "10s"}]},
